@@ -150,11 +150,13 @@ struct Runner
         if (expect_abort) {
           if (!ab) { fail(shape, !alive ? "registration-without-live-sandbox-succeeded" : "second-registration-of-registered-function-succeeded", mon::fmt("f%d", f)); return false; }
           n_expected_abort++;
-          ended = true; // abort is terminal
-          return false;
+          // a refused registration changes nothing and the client may catch the abort and carry on: the history continues
+          // with the model as it was (since round 15; before, an expected abort ended the history)
+          mon::hit("history-continued-after-a-refused-registration");
+          break;
         }
         if (full) {
-          if (ab) { n_refused_full++; ended = true; return false; }
+          if (ab) { n_refused_full++; mon::hit("history-continued-after-a-refused-registration"); break; }
           if (!fresh.is_unregistered()) {
             fail("register-when-table-full", "returned-object-claims-registered",
                  mon::fmt("all %d entry points in use; register_callback(f%d) returned an object with is_unregistered()==false and entry point %llu", BT<B>::CAP, f,
